@@ -5,16 +5,19 @@ import SslModel.Thm.C01
 import SslModel.Thm.C06
 import SslModel.Thm.C07
 /-!
-# C01 (stage 2) — type soundness at the level of the evaluator, for the first-order expression fragment
+# C01 (stage 2) — type soundness at the level of the evaluator, for the first-order fragment
 
 `Check.tyOf` models the static types the checker assigns (tied to the implementation by the `fragment-types`
 stream of tools/props/c01.py); `Spec.eval` is the reference evaluator (tied by the `prog` stream).
 Proved here: **if the checker model types an expression / statement list of the fragment, every value the evaluator
-produces for it - any fuel, any store, any environment that respects the static types - inhabits that type by contents**
-(`eval_sound`, `program_sound`).  The fragment: literals, variables, array and tuple literals, prefix `!` / `-`,
-`&&` / `||`, all scalar binary operators, indexing and tuple access on non-union operands, `if` / `else`, blocks,
-`:=` declarations with shadowing.  Outside it (functions, calls, cells, loops, match, if-set, structs, slices,
-iterators) the property is decided for the running code by the in-crate monitor.
+produces for it - any fuel, any store, any environment that respects the static types - has a run-time TAG below that
+type (`Type::matches`, what `match` and `if x: T = e` test) and inhabits it BY CONTENTS** (`eval_sound`,
+`program_sound`).  The invariant carried through the induction is `plain`: first-order values whose stored array tags
+are well-formed and lie above the tags of their elements - the invariant the implementation's `Array` keeps.
+The fragment: literals, variables, array and tuple literals, prefix `!` / `-`, `&&` / `||`, all scalar binary
+operators, indexing and tuple access on non-union operands, `if` / `else`, `if x: T = e` with its else branch,
+`match` with type, value and default arms, blocks, `:=` declarations with shadowing.  Outside it (functions, calls,
+cells, loops, structs, slices, iterators) the property is decided for the running code by the in-crate monitor.
 -/
 set_option linter.unusedSimpArgs false
 set_option linter.unusedVariables false
@@ -106,14 +109,162 @@ theorem in_accAddScalar (x y : Val) (h : hasTy (.tup [x, y]) accAddScalar = true
   · right; right; cases x <;> simp [hasTy] at h1; cases y <;> simp [hasTy] at h2; exact ⟨_, _, rfl, rfl⟩
 
 
+theorem foL_append (a b : List Val) : foL (a ++ b) = (foL a && foL b) := by
+  induction a with
+  | nil => simp [foL]
+  | cons v a ih => simp [foL, ih, Bool.and_assoc]
+
+theorem foL_of_mem (vs : List Val) (h : ∀ x ∈ vs, fo x = true) : foL vs = true := by
+  induction vs with
+  | nil => simp [foL]
+  | cons v vs ih => simp [foL, h v (by simp), ih (fun x hx => h x (by simp [hx]))]
+
+/-- every element's run-time tag lies below the array's stored element type -/
+def allTagSub (es : List Val) (t : Ty) : Bool := es.all fun e => sub e.asType t
+
+theorem allTagSub_iff (es : List Val) (t : Ty) : allTagSub es t = true ↔ ∀ e ∈ es, sub e.asType t = true := by
+  simp [allTagSub, List.all_eq_true]
+
+theorem allTagSub_append (a b : List Val) (t : Ty) : allTagSub (a ++ b) t = (allTagSub a t && allTagSub b t) := by
+  simp [allTagSub, List.all_append]
+
+mutual
+/-- first-order values whose stored array tags are well-formed and lie above the tags of the elements (what literals,
+    operators and the fragment's constructs build; the implementation's `Array` keeps the same invariant) -/
+def plain : Val → Bool
+  | .bool _ => true
+  | .int _ => true
+  | .float _ => true
+  | .str _ => true
+  | .unit => true
+  | .arr t es => wf t && allTagSub es t && plainL es
+  | .tup es => plainL es
+  | _ => false
+termination_by v => Val.size v
+decreasing_by all_goals (simp only [Val.size]; omega)
+def plainL : List Val → Bool
+  | [] => true
+  | v :: vs => plain v && plainL vs
+termination_by vs => Val.sizeL vs
+decreasing_by all_goals (simp only [Val.sizeL]; omega)
+end
+
+theorem valSizeL_mem {vs : List Val} {x : Val} (hx : x ∈ vs) : Val.size x < Val.sizeL vs := by
+  induction vs with
+  | nil => cases hx
+  | cons v vs ih =>
+    rcases List.mem_cons.mp hx with rfl | h'
+    · simp [Val.sizeL]; omega
+    · have := ih h'; simp [Val.sizeL]; omega
+
+theorem plainL_mem {vs : List Val} (h : plainL vs = true) {x : Val} (hx : x ∈ vs) : plain x = true := by
+  induction vs with
+  | nil => cases hx
+  | cons v vs ih =>
+    simp only [plainL, Bool.and_eq_true] at h
+    rcases List.mem_cons.mp hx with rfl | hx
+    · exact h.1
+    · exact ih h.2 hx
+
+theorem plain_facts : ∀ n : Nat, ∀ v : Val, Val.size v ≤ n → plain v = true →
+    fo v = true ∧ wf v.asType = true ∧ hasTy v v.asType = true := by
+  intro n
+  induction n with
+  | zero => intro v h; cases v <;> simp [Val.size] at h <;> omega
+  | succ n ih =>
+    intro v hs hp
+    cases v with
+    | bool b => simp [fo, asType, wf, hasTy]
+    | int i => simp [fo, asType, wf, hasTy]
+    | float x => simp [fo, asType, wf, hasTy]
+    | str s => simp [fo, asType, wf, hasTy]
+    | unit => simp [fo, asType, wf, hasTy]
+    | arr t es =>
+      simp only [plain, Bool.and_eq_true] at hp
+      simp only [Val.size] at hs
+      have hall : ∀ x ∈ es, fo x = true ∧ wf x.asType = true ∧ hasTy x x.asType = true :=
+        fun x hx => ih x (by have := valSizeL_mem hx; omega) (plainL_mem hp.2 hx)
+      refine ⟨?_, by simpa [asType, wf] using hp.1.1, ?_⟩
+      · simp only [fo]
+        exact foL_of_mem es (fun x hx => (hall x hx).1)
+      · rw [asType, hasTy_arr, allHasTy_iff]
+        intro x hx
+        exact matches_sound_partial x x.asType t (hall x hx).1 ((allTagSub_iff es t).mp hp.1.2 x hx) (hall x hx).2.2
+    | tup es =>
+      simp only [plain] at hp
+      simp only [Val.size] at hs
+      have hall : ∀ x ∈ es, fo x = true ∧ wf x.asType = true ∧ hasTy x x.asType = true :=
+        fun x hx => ih x (by have := valSizeL_mem hx; omega) (plainL_mem hp hx)
+      refine ⟨by simp only [fo]; exact foL_of_mem es (fun x hx => (hall x hx).1), ?_, ?_⟩
+      · simp only [asType, wf]
+        clear hs hp
+        induction es with
+        | nil => simp [asTypeL, wfL]
+        | cons v vs ihv =>
+          simp only [asTypeL, wfL, Bool.and_eq_true]
+          exact ⟨(hall v (by simp)).2.1, ihv (fun x hx => hall x (by simp [hx]))⟩
+      · rw [asType, hasTy_tup]
+        clear hs hp
+        induction es with
+        | nil => simp [asTypeL, hasTyL]
+        | cons v vs ihv =>
+          simp only [asTypeL, hasTyL, Bool.and_eq_true]
+          exact ⟨(hall v (by simp)).2.2, ihv (fun x hx => hall x (by simp [hx]))⟩
+    | struct _ => simp [plain] at hp
+    | cell _ _ => simp [plain] at hp
+    | fn _ _ _ _ _ _ => simp [plain] at hp
+
+
+theorem plain_fo {v : Val} (h : plain v = true) : fo v = true := (plain_facts _ v (Nat.le_refl _) h).1
+theorem plain_wf_tag {v : Val} (h : plain v = true) : wf v.asType = true := (plain_facts _ v (Nat.le_refl _) h).2.1
+/-- **tag soundness**: a plain value inhabits its own run-time tag -/
+theorem plain_hasTy_tag {v : Val} (h : plain v = true) : hasTy v v.asType = true := (plain_facts _ v (Nat.le_refl _) h).2.2
+
+theorem plainL_fo {vs : List Val} (h : plainL vs = true) : foL vs = true :=
+  foL_of_mem vs (fun x hx => plain_fo (plainL_mem h hx))
+
+theorem plainL_append (a b : List Val) : plainL (a ++ b) = (plainL a && plainL b) := by
+  induction a with
+  | nil => simp [plainL]
+  | cons v a ih => simp [plainL, ih, Bool.and_assoc]
+
+/-- a plain value whose tag lies below `T` inhabits `T` (tag soundness + soundness of `matches`) -/
+theorem hasTy_of_tag {v : Val} {T : Ty} (pv : plain v = true) (h : sub v.asType T = true) : hasTy v T = true :=
+  matches_sound_partial v v.asType T (plain_fo pv) h (plain_hasTy_tag pv)
+
+theorem sameKind_asType {a b : Val} (h : sameKind a b = true) : a.asType = b.asType := by
+  cases a <;> cases b <;> simp [sameKind] at h <;> simp [asType]
+
+theorem sub_arr (a b : Ty) : sub (.arr a) (.arr b) = sub a b := by rw [sub]
+theorem sub_tup (as bs : List Ty) : sub (.tup as) (.tup bs) = matchesL as bs := by rw [sub]
+
+theorem matchesL_get : ∀ (as bs : List Ty) (n : Nat) (a b : Ty), matchesL as bs = true →
+    as[n]? = some a → bs[n]? = some b → sub a b = true
+  | x :: as, y :: bs, 0, a, b, h, ha, hb => by
+    rw [matchesL] at h
+    simp only [Bool.and_eq_true] at h
+    simp at ha hb; subst ha hb; exact h.1
+  | x :: as, y :: bs, n + 1, a, b, h, ha, hb => by
+    rw [matchesL] at h
+    simp only [Bool.and_eq_true] at h
+    simp at ha hb
+    exact matchesL_get as bs n a b h.2 ha hb
+  | [], _, _, _, _, _, ha, _ => by simp at ha
+  | _ :: _, [], _, _, _, _, _, hb => by simp at hb
+
+theorem asTypeL_get : ∀ (vs : List Val) (n : Nat) (v : Val), vs[n]? = some v → (asTypeL vs)[n]? = some v.asType
+  | w :: vs, 0, v, h => by simp at h; subst h; simp [asTypeL]
+  | w :: vs, n + 1, v, h => by simp at h; simp [asTypeL, asTypeL_get vs n v h]
+  | [], _, _, h => by simp at h
+
 /-! ## the invariants -/
 
 /-- every variable the checker knows is bound to a first-order value of its static type -/
 def EnvOk (env : Env) (g : TEnv) : Prop :=
-  ∀ x t, g.lookup x = some t → ∃ v, env.lookup x = some v ∧ hasTy v t = true ∧ fo v = true
+  ∀ x t, g.lookup x = some t → ∃ v, env.lookup x = some v ∧ sub v.asType t = true ∧ plain v = true
 
 theorem envOk_insert (env : Env) (g : TEnv) (x : String) (v : Val) (t : Ty) (h : EnvOk env g)
-    (hv : hasTy v t = true) (fv : fo v = true) : EnvOk (env.insert x v) ((x, t) :: g) := by
+    (hv : sub v.asType t = true) (fv : plain v = true) : EnvOk (env.insert x v) ((x, t) :: g) := by
   intro y ty hy
   simp only [TEnv.lookup] at hy
   by_cases hxy : (y == x) = true
@@ -131,6 +282,26 @@ theorem envOk_insert (env : Env) (g : TEnv) (x : String) (v : Val) (t : Ty) (h :
       | true => have : x = y := by simpa using hq
                 subst this; simp at hxy'
     exact ⟨w, by rw [C06.lookup_insert_other env x y v hne]; exact hw, h1, h2⟩
+
+theorem envOk_bind (env : Env) (g : TEnv) (x : String) (v : Val) (t : Ty) (h : EnvOk env g)
+    (hv : sub v.asType t = true) (fv : plain v = true) : EnvOk ([(x, v)] :: env) ((x, t) :: g) := by
+  intro y ty hy
+  simp only [TEnv.lookup] at hy
+  by_cases hxy : (y == x) = true
+  · simp only [hxy, if_true, Option.some.injEq] at hy
+    subst hy
+    have : y = x := by simpa using hxy
+    subst this
+    exact ⟨v, C06.lookup_inner_frame env y v, hv, fv⟩
+  · have hxy' : (y == x) = false := by simpa using hxy
+    simp only [hxy', Bool.false_eq_true, if_false] at hy
+    obtain ⟨w, hw, h1, h2⟩ := h y ty hy
+    have hne : (x == y) = false := by
+      cases hq : (x == y) with
+      | false => rfl
+      | true => have : x = y := by simpa using hq
+                subst this; simp at hxy'
+    exact ⟨w, by rw [C06.lookup_inner_frame_other env x y v hne]; exact hw, h1, h2⟩
 
 theorem envOk_push (env : Env) (g : TEnv) (h : EnvOk env g) : EnvOk ([] :: env) g := by
   intro y ty hy
@@ -239,6 +410,23 @@ theorem tyOf_wf (g : TEnv) (e : Expr) (T : Ty) (h : tyOf g e = .ok T) : wf T = t
     simp only [tyOf] at h
     obtain ⟨p, _, h2⟩ := bind_ok h
     exact okw h2
+  | ifSet x ty e body els =>
+    simp only [tyOf] at h
+    split at h
+    · cases h
+    · obtain ⟨te, _, h2⟩ := bind_ok h
+      obtain ⟨tb, _, h3⟩ := bind_ok h2
+      split at h3
+      · obtain ⟨tl, _, h4⟩ := bind_ok h3
+        exact okw h4
+      · exact okw h3
+  | matchE e arms =>
+    simp only [tyOf] at h
+    obtain ⟨te, _, h2⟩ := bind_ok h
+    obtain ⟨tys, _, h3⟩ := bind_ok h2
+    split at h3
+    · cases h3
+    · exact okw h3
   | _ => simp only [tyOf] at h; cases h
 
 
@@ -301,18 +489,118 @@ theorem hasTyL_get : ∀ (vs : List Val) (ts : List Ty) (n : Nat) (x : Val) (tx 
   | [], _, _, _, _, _, hv, _ => by simp at hv
   | _ :: _, [], _, _, _, _, _, ht => by simp at ht
 
+theorem wfL_asTypeL : ∀ (vs : List Val), plainL vs = true → wfL (asTypeL vs) = true
+  | [], _ => by simp [asTypeL, wfL]
+  | v :: vs, h => by
+    simp only [plainL, Bool.and_eq_true] at h
+    simp only [asTypeL, wfL, Bool.and_eq_true]
+    exact ⟨plain_wf_tag h.1, wfL_asTypeL vs h.2⟩
+
+theorem asType_mem : ∀ (vs : List Val) (v : Val), v ∈ vs → v.asType ∈ asTypeL vs
+  | w :: vs, v, h => by
+    simp only [asTypeL]
+    rcases List.mem_cons.mp h with rfl | h
+    · simp
+    · exact List.mem_cons_of_mem _ (asType_mem vs v h)
+
+theorem wf_concatL (ts : List Ty) (hw : wfL ts = true) : wf (concatL ts) = true := by
+  cases ts with
+  | nil => simp [concatL, wf]
+  | cons t0 rest =>
+    simp only [wfL, Bool.and_eq_true] at hw
+    exact (foldConcat_props rest t0 hw.1 hw.2).1
+
+/-- an array built from plain elements by `Array::from` is plain: its computed tag is well-formed and covers them -/
+theorem plain_mkArray (vs : List Val) (h : plainL vs = true) : plain (Val.mkArray vs) = true := by
+  have hw := wfL_asTypeL vs h
+  simp only [Val.mkArray, plain, Bool.and_eq_true]
+  refine ⟨⟨wf_concatL _ hw, ?_⟩, h⟩
+  rw [allTagSub_iff]
+  intro v hv
+  exact members_sub_concatL (asTypeL vs) hw v.asType (asType_mem vs v hv)
+
+theorem tag_int (k : I64) : sub (Val.int k).asType .int = true := by simp [asType, sub, eqv]
+theorem tag_bool (k : Bool) : sub (Val.bool k).asType .bool = true := by simp [asType, sub, eqv]
+theorem tag_float (k : F64) : sub (Val.float k).asType .float = true := by simp [asType, sub, eqv]
+theorem tag_str (k : String) : sub (Val.str k).asType .str = true := by simp [asType, sub, eqv]
+theorem tag_unit : sub Val.unit.asType .void = true := by simp [asType, sub, eqv]
+
+/-- widening along `matches` of the tags of an array's elements -/
+theorem allTagSub_widen (xs : List Val) (a b : Ty) (px : plainL xs = true) (wa : wf a = true) (wb : wf b = true)
+    (hs : sub a b = true) (h : allTagSub xs a = true) : allTagSub xs b = true := by
+  rw [allTagSub_iff] at h ⊢
+  intro v hv
+  exact sub_trans v.asType a b (plain_wf_tag (plainL_mem px hv)) wa wb (h v hv) hs
+
+theorem matchesL_mem : ∀ (as bs : List Ty) (a : Ty), matchesL as bs = true → a ∈ as → ∃ b ∈ bs, sub a b = true
+  | x :: as, y :: bs, a, h, ha => by
+    rw [matchesL] at h
+    simp only [Bool.and_eq_true] at h
+    rcases List.mem_cons.mp ha with rfl | ha
+    · exact ⟨y, by simp, h.1⟩
+    · obtain ⟨b, hb, hs⟩ := matchesL_mem as bs a h.2 ha
+      exact ⟨b, by simp [hb], hs⟩
+  | [], _, _, _, ha => by cases ha
+  | _ :: _, [], _, h, _ => by simp [matchesL] at h
+
+/-- the join of the element tags lies below the join of the static element types -/
+theorem concatL_mono (as bs : List Ty) (wa : wfL as = true) (wb : wfL bs = true) (h : matchesL as bs = true) :
+    sub (concatL as) (concatL bs) = true := by
+  have wB := wf_concatL bs wb
+  have key : ∀ a ∈ as, sub a (concatL bs) = true := by
+    intro a ha
+    obtain ⟨b, hb, hs⟩ := matchesL_mem as bs a h ha
+    exact sub_trans a b _ (wfL_mem wa ha) (wfL_mem wb hb) wB hs (members_sub_concatL bs wb b hb)
+  cases as with
+  | nil => simp [concatL, sub]
+  | cons a0 rest =>
+    simp only [wfL, Bool.and_eq_true] at wa
+    simp only [concatL]
+    exact foldConcat_least rest a0 _ wa.1 wa.2 (key a0 (by simp)) (fun x hx => key x (by simp [hx]))
+
+theorem tyOfArms_wf (g : TEnv) : ∀ (arms : List Arm) (tys : List Ty), tyOfArms g arms = .ok tys → wfL tys = true
+  | [], tys, h => by simp only [tyOfArms] at h; cases h; rfl
+  | .ty x t body :: rest, tys, h => by
+    simp only [tyOfArms] at h
+    split at h
+    · cases h
+    · obtain ⟨tb, htb, h2⟩ := bind_ok h
+      obtain ⟨ts, hts, h3⟩ := bind_ok h2
+      cases h3
+      simp only [wfL, Bool.and_eq_true]
+      exact ⟨tyOf_wf _ body tb htb, tyOfArms_wf g rest ts hts⟩
+  | .val cands body :: rest, tys, h => by
+    simp only [tyOfArms] at h
+    obtain ⟨_, _, h1⟩ := bind_ok h
+    obtain ⟨tb, htb, h2⟩ := bind_ok h1
+    obtain ⟨ts, hts, h3⟩ := bind_ok h2
+    cases h3
+    simp only [wfL, Bool.and_eq_true]
+    exact ⟨tyOf_wf _ body tb htb, tyOfArms_wf g rest ts hts⟩
+  | .other body :: rest, tys, h => by
+    simp only [tyOfArms] at h
+    obtain ⟨tb, htb, h2⟩ := bind_ok h
+    obtain ⟨ts, hts, h3⟩ := bind_ok h2
+    cases h3
+    simp only [wfL, Bool.and_eq_true]
+    exact ⟨tyOf_wf _ body tb htb, tyOfArms_wf g rest ts hts⟩
+
 /-! ## soundness of the checker model for the evaluator (first-order fragment) -/
 
 def SoundE (f : Nat) : Prop := ∀ (g : TEnv) (env : Env) (e : Expr) (T : Ty) (σ σ' : St) (v : Val),
-  EnvOk env g → tyOf g e = .ok T → eval f env e σ = (.ok v, σ') → hasTy v T = true ∧ fo v = true
+  EnvOk env g → tyOf g e = .ok T → eval f env e σ = (.ok v, σ') → sub v.asType T = true ∧ plain v = true
 def SoundL (f : Nat) : Prop := ∀ (g : TEnv) (env : Env) (es : List Expr) (Ts : List Ty) (σ σ' : St) (vs : List Val),
-  EnvOk env g → tyOfList g es = .ok Ts → evalList f env es σ = (.ok vs, σ') → hasTyL vs Ts = true ∧ foL vs = true
+  EnvOk env g → tyOfList g es = .ok Ts → evalList f env es σ = (.ok vs, σ') → matchesL (asTypeL vs) Ts = true ∧ plainL vs = true
 def SoundS (f : Nat) : Prop := ∀ (g g' : TEnv) (env env' : Env) (body : List Expr) (T : Ty) (σ σ' : St) (v : Val),
   EnvOk env g → tyOfSeq g body = .ok (T, g') → evalSeq f env body σ = (.ok (v, env'), σ') →
-  hasTy v T = true ∧ fo v = true ∧ EnvOk env' g'
+  sub v.asType T = true ∧ plain v = true ∧ EnvOk env' g'
 def SoundSt (f : Nat) : Prop := ∀ (g g' : TEnv) (env env' : Env) (s : Expr) (T : Ty) (σ σ' : St) (v : Val),
   EnvOk env g → tyOfStmt g s = .ok (T, g') → evalStmt f env s σ = (.ok (v, env'), σ') →
-  hasTy v T = true ∧ fo v = true ∧ EnvOk env' g'
+  sub v.asType T = true ∧ plain v = true ∧ EnvOk env' g'
+
+def SoundA (f : Nat) : Prop := ∀ (g : TEnv) (env : Env) (v : Val) (arms : List Arm) (tys : List Ty) (σ σ' : St) (r : Val),
+  EnvOk env g → plain v = true → tyOfArms g arms = .ok tys → evalArms f env v arms σ = (.ok r, σ') →
+  ∃ t ∈ tys, sub r.asType t = true ∧ plain r = true
 
 theorem bindM_ok {α β} {m : M α} {k : α → M β} {σ σ' : St} {b : β} (h : (m >>= k) σ = (.ok b, σ')) :
     ∃ a σ1, m σ = (.ok a, σ1) ∧ k a σ1 = (.ok b, σ') := by
@@ -338,16 +626,6 @@ theorem interp_cmp_bool (op : IntOp) (h : isArith op.body = false) (a b : I64) (
   · simp [ofScalar] at hr
   · cases hb : op.body <;> simp [hb, isArith] at h <;> (simp [hb, IntExpr.eval, ofScalar] at hr; exact ⟨_, hr.symm⟩)
 
-theorem foL_append (a b : List Val) : foL (a ++ b) = (foL a && foL b) := by
-  induction a with
-  | nil => simp [foL]
-  | cons v a ih => simp [foL, ih, Bool.and_assoc]
-
-theorem foL_of_mem (vs : List Val) (h : ∀ x ∈ vs, fo x = true) : foL vs = true := by
-  induction vs with
-  | nil => simp [foL]
-  | cons v vs ih => simp [foL, h v (by simp), ih (fun x hx => h x (by simp [hx]))]
-
 /-- widening the element type of an array's contents along `matches` -/
 theorem allHasTy_widen (xs : List Val) (a b : Ty) (hf : foL xs = true) (hs : sub a b = true)
     (h : allHasTy xs a = true) : allHasTy xs b = true := by
@@ -361,11 +639,15 @@ theorem allHasTy_append (xs ys : List Val) (t : Ty) : allHasTy (xs ++ ys) t = (a
   | cons v xs ih => simp [allHasTy, ih, Bool.and_assoc]
 
 /-- a scalar binary operator on operands of the types the checker admits yields a value of the type it assigns -/
-theorem sound_bin (op : BinOp) (l r T : Ty) (x y v : Val) (hx : hasTy x l = true) (hy : hasTy y r = true)
-    (fx : fo x = true) (fy : fo y = true) (wl : wf l = true) (wr : wf r = true)
+theorem sound_bin (op : BinOp) (l r T : Ty) (x y v : Val) (tx : sub x.asType l = true) (ty : sub y.asType r = true)
+    (px : plain x = true) (py : plain y = true) (wl : wf l = true) (wr : wf r = true)
     (ht : binTy op l r = .ok T) (hv : binScalar op x y = .ok v) :
-    hasTy v T = true ∧ fo v = true := by
-  have same : ∀ (w : Val), sameKind w x = true → hasTy w l = true := fun w hk => by rw [hasTy_sameKind l w x hk]; exact hx
+    sub v.asType T = true ∧ plain v = true := by
+  have fx := plain_fo px
+  have fy := plain_fo py
+  have hx := hasTy_of_tag px tx
+  have hy := hasTy_of_tag py ty
+  have same : ∀ (w : Val), sameKind w x = true → sub w.asType l = true := fun w hk => by rw [sameKind_asType hk]; exact tx
   cases op with
   | sub =>
     simp only [binTy] at ht
@@ -374,9 +656,9 @@ theorem sound_bin (op : BinOp) (l r T : Ty) (x y v : Val) (hx : hasTy x l = true
       rw [(okW_ok ht).1]
       rcases in_accNum x y (pair_in x y l r accNum hx hy fx fy hs) with ⟨a, b, rfl, rfl⟩ | ⟨a, b, rfl, rfl⟩
       · obtain ⟨k, rfl⟩ := int_of_hasTy (int_arith_yields_int .sub a b v (by simp) hv)
-        exact ⟨same _ rfl, by simp [fo]⟩
+        exact ⟨same _ rfl, by simp [plain]⟩
       · obtain ⟨k, rfl⟩ := float_of_hasTy (float_arith_yields_float .sub a b v (by simp) hv)
-        exact ⟨same _ rfl, by simp [fo]⟩
+        exact ⟨same _ rfl, by simp [plain]⟩
     · cases ht
   | mul =>
     simp only [binTy] at ht
@@ -385,9 +667,9 @@ theorem sound_bin (op : BinOp) (l r T : Ty) (x y v : Val) (hx : hasTy x l = true
       rw [(okW_ok ht).1]
       rcases in_accNum x y (pair_in x y l r accNum hx hy fx fy hs) with ⟨a, b, rfl, rfl⟩ | ⟨a, b, rfl, rfl⟩
       · obtain ⟨k, rfl⟩ := int_of_hasTy (int_arith_yields_int .mul a b v (by simp) hv)
-        exact ⟨same _ rfl, by simp [fo]⟩
+        exact ⟨same _ rfl, by simp [plain]⟩
       · obtain ⟨k, rfl⟩ := float_of_hasTy (float_arith_yields_float .mul a b v (by simp) hv)
-        exact ⟨same _ rfl, by simp [fo]⟩
+        exact ⟨same _ rfl, by simp [plain]⟩
     · cases ht
   | div =>
     simp only [binTy] at ht
@@ -396,9 +678,9 @@ theorem sound_bin (op : BinOp) (l r T : Ty) (x y v : Val) (hx : hasTy x l = true
       rw [(okW_ok ht).1]
       rcases in_accNum x y (pair_in x y l r accNum hx hy fx fy hs) with ⟨a, b, rfl, rfl⟩ | ⟨a, b, rfl, rfl⟩
       · obtain ⟨k, rfl⟩ := int_of_hasTy (int_arith_yields_int .div a b v (by simp) hv)
-        exact ⟨same _ rfl, by simp [fo]⟩
+        exact ⟨same _ rfl, by simp [plain]⟩
       · obtain ⟨k, rfl⟩ := float_of_hasTy (float_arith_yields_float .div a b v (by simp) hv)
-        exact ⟨same _ rfl, by simp [fo]⟩
+        exact ⟨same _ rfl, by simp [plain]⟩
     · cases ht
   | pow =>
     simp only [binTy] at ht
@@ -407,9 +689,9 @@ theorem sound_bin (op : BinOp) (l r T : Ty) (x y v : Val) (hx : hasTy x l = true
       rw [(okW_ok ht).1]
       rcases in_accNum x y (pair_in x y l r accNum hx hy fx fy hs) with ⟨a, b, rfl, rfl⟩ | ⟨a, b, rfl, rfl⟩
       · obtain ⟨k, rfl⟩ := int_of_hasTy (int_arith_yields_int .pow a b v (by simp) hv)
-        exact ⟨same _ rfl, by simp [fo]⟩
+        exact ⟨same _ rfl, by simp [plain]⟩
       · obtain ⟨k, rfl⟩ := float_of_hasTy (float_arith_yields_float .pow a b v (by simp) hv)
-        exact ⟨same _ rfl, by simp [fo]⟩
+        exact ⟨same _ rfl, by simp [plain]⟩
     · cases ht
   | mod =>
     simp only [binTy] at ht
@@ -418,7 +700,7 @@ theorem sound_bin (op : BinOp) (l r T : Ty) (x y v : Val) (hx : hasTy x l = true
       cases ht
       obtain ⟨a, b, rfl, rfl⟩ := in_accInt x y (pair_in x y l r accInt hx hy fx fy hs)
       obtain ⟨k, rfl⟩ := int_of_hasTy (int_arith_yields_int .mod a b v (by simp) hv)
-      exact ⟨by simp [hasTy], by simp [fo]⟩
+      exact ⟨by simp [asType, sub, eqv], by simp [plain]⟩
     · cases ht
   | shl =>
     simp only [binTy] at ht
@@ -427,7 +709,7 @@ theorem sound_bin (op : BinOp) (l r T : Ty) (x y v : Val) (hx : hasTy x l = true
       cases ht
       obtain ⟨a, b, rfl, rfl⟩ := in_accInt x y (pair_in x y l r accInt hx hy fx fy hs)
       obtain ⟨k, rfl⟩ := int_of_hasTy (int_arith_yields_int .shl a b v (by simp) hv)
-      exact ⟨by simp [hasTy], by simp [fo]⟩
+      exact ⟨by simp [asType, sub, eqv], by simp [plain]⟩
     · cases ht
   | shr =>
     simp only [binTy] at ht
@@ -436,7 +718,7 @@ theorem sound_bin (op : BinOp) (l r T : Ty) (x y v : Val) (hx : hasTy x l = true
       cases ht
       obtain ⟨a, b, rfl, rfl⟩ := in_accInt x y (pair_in x y l r accInt hx hy fx fy hs)
       obtain ⟨k, rfl⟩ := int_of_hasTy (int_arith_yields_int .shr a b v (by simp) hv)
-      exact ⟨by simp [hasTy], by simp [fo]⟩
+      exact ⟨by simp [asType, sub, eqv], by simp [plain]⟩
     · cases ht
   | lt =>
     simp only [binTy] at ht
@@ -446,10 +728,10 @@ theorem sound_bin (op : BinOp) (l r T : Ty) (x y v : Val) (hx : hasTy x l = true
       rcases in_accNum x y (pair_in x y l r accNum hx hy fx fy hs) with ⟨a, b, rfl, rfl⟩ | ⟨a, b, rfl, rfl⟩
       · simp only [binScalar] at hv
         obtain ⟨k, rfl⟩ := interp_cmp_bool Gen.lower (by decide) a b v hv
-        exact ⟨by simp [hasTy], by simp [fo]⟩
+        exact ⟨by simp [asType, sub, eqv], by simp [plain]⟩
       · simp only [binScalar] at hv
         cases hv
-        exact ⟨by simp [hasTy], by simp [fo]⟩
+        exact ⟨by simp [asType, sub, eqv], by simp [plain]⟩
     · cases ht
   | le =>
     simp only [binTy] at ht
@@ -459,10 +741,10 @@ theorem sound_bin (op : BinOp) (l r T : Ty) (x y v : Val) (hx : hasTy x l = true
       rcases in_accNum x y (pair_in x y l r accNum hx hy fx fy hs) with ⟨a, b, rfl, rfl⟩ | ⟨a, b, rfl, rfl⟩
       · simp only [binScalar] at hv
         obtain ⟨k, rfl⟩ := interp_cmp_bool Gen.lower_equal (by decide) a b v hv
-        exact ⟨by simp [hasTy], by simp [fo]⟩
+        exact ⟨by simp [asType, sub, eqv], by simp [plain]⟩
       · simp only [binScalar] at hv
         cases hv
-        exact ⟨by simp [hasTy], by simp [fo]⟩
+        exact ⟨by simp [asType, sub, eqv], by simp [plain]⟩
     · cases ht
   | gt =>
     simp only [binTy] at ht
@@ -472,10 +754,10 @@ theorem sound_bin (op : BinOp) (l r T : Ty) (x y v : Val) (hx : hasTy x l = true
       rcases in_accNum x y (pair_in x y l r accNum hx hy fx fy hs) with ⟨a, b, rfl, rfl⟩ | ⟨a, b, rfl, rfl⟩
       · simp only [binScalar] at hv
         obtain ⟨k, rfl⟩ := interp_cmp_bool Gen.greater (by decide) a b v hv
-        exact ⟨by simp [hasTy], by simp [fo]⟩
+        exact ⟨by simp [asType, sub, eqv], by simp [plain]⟩
       · simp only [binScalar] at hv
         cases hv
-        exact ⟨by simp [hasTy], by simp [fo]⟩
+        exact ⟨by simp [asType, sub, eqv], by simp [plain]⟩
     · cases ht
   | ge =>
     simp only [binTy] at ht
@@ -485,10 +767,10 @@ theorem sound_bin (op : BinOp) (l r T : Ty) (x y v : Val) (hx : hasTy x l = true
       rcases in_accNum x y (pair_in x y l r accNum hx hy fx fy hs) with ⟨a, b, rfl, rfl⟩ | ⟨a, b, rfl, rfl⟩
       · simp only [binScalar] at hv
         obtain ⟨k, rfl⟩ := interp_cmp_bool Gen.greater_equal (by decide) a b v hv
-        exact ⟨by simp [hasTy], by simp [fo]⟩
+        exact ⟨by simp [asType, sub, eqv], by simp [plain]⟩
       · simp only [binScalar] at hv
         cases hv
-        exact ⟨by simp [hasTy], by simp [fo]⟩
+        exact ⟨by simp [asType, sub, eqv], by simp [plain]⟩
     · cases ht
   | band =>
     simp only [binTy] at ht
@@ -497,10 +779,10 @@ theorem sound_bin (op : BinOp) (l r T : Ty) (x y v : Val) (hx : hasTy x l = true
       rw [(okW_ok ht).1]
       rcases in_accBit x y (pair_in x y l r accBit hx hy fx fy hs) with ⟨a, b, rfl, rfl⟩ | ⟨a, b, rfl, rfl⟩
       · obtain ⟨k, rfl⟩ := int_of_hasTy (int_arith_yields_int .band a b v (by simp) hv)
-        exact ⟨same _ rfl, by simp [fo]⟩
+        exact ⟨same _ rfl, by simp [plain]⟩
       · simp only [binScalar] at hv
         cases hv
-        exact ⟨same _ rfl, by simp [fo]⟩
+        exact ⟨same _ rfl, by simp [plain]⟩
     · cases ht
   | bor =>
     simp only [binTy] at ht
@@ -509,10 +791,10 @@ theorem sound_bin (op : BinOp) (l r T : Ty) (x y v : Val) (hx : hasTy x l = true
       rw [(okW_ok ht).1]
       rcases in_accBit x y (pair_in x y l r accBit hx hy fx fy hs) with ⟨a, b, rfl, rfl⟩ | ⟨a, b, rfl, rfl⟩
       · obtain ⟨k, rfl⟩ := int_of_hasTy (int_arith_yields_int .bor a b v (by simp) hv)
-        exact ⟨same _ rfl, by simp [fo]⟩
+        exact ⟨same _ rfl, by simp [plain]⟩
       · simp only [binScalar] at hv
         cases hv
-        exact ⟨same _ rfl, by simp [fo]⟩
+        exact ⟨same _ rfl, by simp [plain]⟩
     · cases ht
   | bxor =>
     simp only [binTy] at ht
@@ -521,21 +803,21 @@ theorem sound_bin (op : BinOp) (l r T : Ty) (x y v : Val) (hx : hasTy x l = true
       rw [(okW_ok ht).1]
       rcases in_accBit x y (pair_in x y l r accBit hx hy fx fy hs) with ⟨a, b, rfl, rfl⟩ | ⟨a, b, rfl, rfl⟩
       · obtain ⟨k, rfl⟩ := int_of_hasTy (int_arith_yields_int .bxor a b v (by simp) hv)
-        exact ⟨same _ rfl, by simp [fo]⟩
+        exact ⟨same _ rfl, by simp [plain]⟩
       · simp only [binScalar] at hv
         cases hv
-        exact ⟨same _ rfl, by simp [fo]⟩
+        exact ⟨same _ rfl, by simp [plain]⟩
     · cases ht
   | eq =>
     simp only [binTy] at ht
     cases ht
     obtain ⟨k, rfl⟩ := bool_of_hasTy (comparison_yields_bool .eq x y v (by simp) hv)
-    exact ⟨by simp [hasTy], by simp [fo]⟩
+    exact ⟨by simp [asType, sub, eqv], by simp [plain]⟩
   | ne =>
     simp only [binTy] at ht
     cases ht
     obtain ⟨k, rfl⟩ := bool_of_hasTy (comparison_yields_bool .ne x y v (by simp) hv)
-    exact ⟨by simp [hasTy], by simp [fo]⟩
+    exact ⟨by simp [asType, sub, eqv], by simp [plain]⟩
   | filter => simp only [binTy] at ht; cases ht
   | map => simp only [binTy] at ht; cases ht
   | partition => simp only [binTy] at ht; cases ht
@@ -547,40 +829,46 @@ theorem sound_bin (op : BinOp) (l r T : Ty) (x y v : Val) (hx : hasTy x l = true
       simp only [wf] at wl wr
       obtain ⟨t1, xs, rfl⟩ := arr_of_hasTy hx
       obtain ⟨t2, ys, rfl⟩ := arr_of_hasTy hy
-      rw [hasTy_arr] at hx hy
-      simp only [fo] at fx fy
+      simp only [asType, sub_arr] at tx ty
+      simp only [plain, Bool.and_eq_true] at px py
+      have wc := concat_wf t1 t2 px.1.1 py.1.1
+      have wC := concat_wf le re wl wr
       obtain ⟨u1, u2⟩ := concat_upper le re wl wr
-      have hxs := allHasTy_widen xs le (concat le re) fx u1 hx
-      have hys := allHasTy_widen ys re (concat le re) fy u2 hy
+      obtain ⟨v1, v2⟩ := concat_upper t1 t2 px.1.1 py.1.1
+      have s1 : sub t1 (concat le re) = true := sub_trans t1 le _ px.1.1 wl wC tx u1
+      have s2 : sub t2 (concat le re) = true := sub_trans t2 re _ py.1.1 wr wC ty u2
+      have txs := allTagSub_widen xs t1 (concat t1 t2) px.2 px.1.1 wc v1 px.1.2
+      have tys := allTagSub_widen ys t2 (concat t1 t2) py.2 py.1.1 wc v2 py.1.2
       simp only [binScalar, concatArrays] at hv
       split at hv
-      · cases hv; exact ⟨by rw [hasTy_arr]; exact hys, by simpa [fo] using fy⟩
+      · cases hv; exact ⟨by simp only [asType, sub_arr]; exact s2, by simp [plain, py.1.1, py.1.2, py.2]⟩
       · split at hv
-        · cases hv; exact ⟨by rw [hasTy_arr]; exact hxs, by simpa [fo] using fx⟩
+        · cases hv; exact ⟨by simp only [asType, sub_arr]; exact s1, by simp [plain, px.1.1, px.1.2, px.2]⟩
         · cases hv
-          exact ⟨by rw [hasTy_arr, allHasTy_append, hxs, hys]; rfl, by simp [fo, foL_append, fx, fy]⟩
+          exact ⟨by simp only [asType, sub_arr]; exact concat_least t1 t2 _ px.1.1 py.1.1 s1 s2,
+            by simp [plain, wc, allTagSub_append, txs, tys, plainL_append, px.2, py.2]⟩
     · split at ht
       · rename_i hs
         rw [(okW_ok ht).1]
         rcases in_accAddScalar x y (pair_in x y l r accAddScalar hx hy fx fy hs) with
           ⟨a, b, rfl, rfl⟩ | ⟨a, b, rfl, rfl⟩ | ⟨a, b, rfl, rfl⟩
         · obtain ⟨k, rfl⟩ := int_of_hasTy (int_arith_yields_int .add a b v (by simp) hv)
-          exact ⟨same _ rfl, by simp [fo]⟩
+          exact ⟨same _ rfl, by simp [plain]⟩
         · obtain ⟨k, rfl⟩ := float_of_hasTy (float_arith_yields_float .add a b v (by simp) hv)
-          exact ⟨same _ rfl, by simp [fo]⟩
+          exact ⟨same _ rfl, by simp [plain]⟩
         · simp only [binScalar] at hv
           cases hv
-          exact ⟨same _ rfl, by simp [fo]⟩
+          exact ⟨same _ rfl, by simp [plain]⟩
       · split at ht <;> cases ht
 
-theorem soundE_step (f : Nat) (hE : SoundE f) (hL : SoundL f) (hS : SoundS f) : SoundE (f + 1) := by
+theorem soundE_step (f : Nat) (hE : SoundE f) (hL : SoundL f) (hS : SoundS f) (hA : SoundA f) : SoundE (f + 1) := by
   intro g env e T σ σ' v henv ht hev
   cases e with
-  | litBool b => simp only [tyOf] at ht; cases ht; simp only [eval] at hev; cases hev; simp [hasTy, fo]
-  | litInt i => simp only [tyOf] at ht; cases ht; simp only [eval] at hev; cases hev; simp [hasTy, fo]
-  | litFloat x => simp only [tyOf] at ht; cases ht; simp only [eval] at hev; cases hev; simp [hasTy, fo]
-  | litStr x => simp only [tyOf] at ht; cases ht; simp only [eval] at hev; cases hev; simp [hasTy, fo]
-  | litUnit => simp only [tyOf] at ht; cases ht; simp only [eval] at hev; cases hev; simp [hasTy, fo]
+  | litBool b => simp only [tyOf] at ht; cases ht; simp only [eval] at hev; cases hev; exact ⟨tag_bool _, by simp [plain]⟩
+  | litInt i => simp only [tyOf] at ht; cases ht; simp only [eval] at hev; cases hev; exact ⟨tag_int _, by simp [plain]⟩
+  | litFloat x => simp only [tyOf] at ht; cases ht; simp only [eval] at hev; cases hev; exact ⟨tag_float _, by simp [plain]⟩
+  | litStr x => simp only [tyOf] at ht; cases ht; simp only [eval] at hev; cases hev; exact ⟨tag_str _, by simp [plain]⟩
+  | litUnit => simp only [tyOf] at ht; cases ht; simp only [eval] at hev; cases hev; exact ⟨tag_unit, by simp [plain]⟩
   | var x =>
     simp only [tyOf] at ht
     split at ht
@@ -631,18 +919,18 @@ theorem soundE_step (f : Nat) (hE : SoundE f) (hL : SoundL f) (hS : SoundS f) : 
         rw [(okW_ok h2).1]
         simp only [eval] at hev
         obtain ⟨x, σ1, ha, hk⟩ := bindM_ok hev
-        obtain ⟨hx, fx⟩ := hE g env a ta σ σ1 x henv hta ha
-        have hm := matches_sound_partial x ta accNot fx hs hx
+        obtain ⟨tx, fx⟩ := hE g env a ta σ σ1 x henv hta ha
+        have hm := matches_sound_partial x ta accNot (plain_fo fx) hs (hasTy_of_tag fx tx)
         simp only [accNot, hasTy_multi, hasTyAny, Bool.or_eq_true, Bool.or_false] at hm
         rcases hm with hm | hm
         · obtain ⟨k, rfl⟩ := int_of_hasTy hm
           simp only [liftE, preScalar] at hk
           cases hk
-          exact ⟨by rw [hasTy_sameKind ta _ (.int k) rfl]; exact hx, by simp [fo]⟩
+          exact ⟨by rw [sameKind_asType (b := .int k) rfl]; exact tx, by simp [plain]⟩
         · obtain ⟨k, rfl⟩ := bool_of_hasTy hm
           simp only [liftE, preScalar] at hk
           cases hk
-          exact ⟨by rw [hasTy_sameKind ta _ (.bool k) rfl]; exact hx, by simp [fo]⟩
+          exact ⟨by rw [sameKind_asType (b := .bool k) rfl]; exact tx, by simp [plain]⟩
       · cases h2
     | neg =>
       simp only [tyOf] at ht
@@ -652,18 +940,18 @@ theorem soundE_step (f : Nat) (hE : SoundE f) (hL : SoundL f) (hS : SoundS f) : 
         rw [(okW_ok h2).1]
         simp only [eval] at hev
         obtain ⟨x, σ1, ha, hk⟩ := bindM_ok hev
-        obtain ⟨hx, fx⟩ := hE g env a ta σ σ1 x henv hta ha
-        have hm := matches_sound_partial x ta accNeg fx hs hx
+        obtain ⟨tx, fx⟩ := hE g env a ta σ σ1 x henv hta ha
+        have hm := matches_sound_partial x ta accNeg (plain_fo fx) hs (hasTy_of_tag fx tx)
         simp only [accNeg, hasTy_multi, hasTyAny, Bool.or_eq_true, Bool.or_false] at hm
         rcases hm with hm | hm
         · obtain ⟨k, rfl⟩ := int_of_hasTy hm
           simp only [liftE, preScalar] at hk
           cases hk
-          exact ⟨by rw [hasTy_sameKind ta _ (.int k) rfl]; exact hx, by simp [fo]⟩
+          exact ⟨by rw [sameKind_asType (b := .int k) rfl]; exact tx, by simp [plain]⟩
         · obtain ⟨k, rfl⟩ := float_of_hasTy hm
           simp only [liftE, preScalar] at hk
           cases hk
-          exact ⟨by rw [hasTy_sameKind ta _ (.float k) rfl]; exact hx, by simp [fo]⟩
+          exact ⟨by rw [sameKind_asType (b := .float k) rfl]; exact tx, by simp [plain]⟩
       · cases h2
   | and a b =>
     simp only [tyOf] at ht
@@ -678,15 +966,15 @@ theorem soundE_step (f : Nat) (hE : SoundE f) (hL : SoundL f) (hS : SoundS f) : 
       subst e1 e2
       simp only [eval] at hev
       obtain ⟨x, σ1, ha, hk⟩ := bindM_ok hev
-      obtain ⟨hx, fx⟩ := hE g env a .bool σ σ1 x henv hta ha
-      obtain ⟨k, rfl⟩ := bool_of_hasTy hx
+      obtain ⟨tx, fx⟩ := hE g env a .bool σ σ1 x henv hta ha
+      obtain ⟨k, rfl⟩ := bool_of_hasTy (hasTy_of_tag fx tx)
       obtain ⟨k2, σ2, hk1, hk2⟩ := bindM_ok hk
       simp only [liftE, asBool] at hk1
       cases hk1
       cases k
       · simp at hk2
         cases hk2
-        exact ⟨by simp [hasTy], by simp [fo]⟩
+        exact ⟨tag_bool _, by simp [plain]⟩
       · simp at hk2
         exact hE g env b .bool σ1 σ' v henv htb hk2
     · cases h3
@@ -703,8 +991,8 @@ theorem soundE_step (f : Nat) (hE : SoundE f) (hL : SoundL f) (hS : SoundS f) : 
       subst e1 e2
       simp only [eval] at hev
       obtain ⟨x, σ1, ha, hk⟩ := bindM_ok hev
-      obtain ⟨hx, fx⟩ := hE g env a .bool σ σ1 x henv hta ha
-      obtain ⟨k, rfl⟩ := bool_of_hasTy hx
+      obtain ⟨tx, fx⟩ := hE g env a .bool σ σ1 x henv hta ha
+      obtain ⟨k, rfl⟩ := bool_of_hasTy (hasTy_of_tag fx tx)
       obtain ⟨k2, σ2, hk1, hk2⟩ := bindM_ok hk
       simp only [liftE, asBool] at hk1
       cases hk1
@@ -713,7 +1001,7 @@ theorem soundE_step (f : Nat) (hE : SoundE f) (hL : SoundL f) (hS : SoundS f) : 
         exact hE g env b .bool σ1 σ' v henv htb hk2
       · simp at hk2
         cases hk2
-        exact ⟨by simp [hasTy], by simp [fo]⟩
+        exact ⟨tag_bool _, by simp [plain]⟩
     · cases h3
   | array es =>
     simp only [tyOf] at ht
@@ -723,9 +1011,9 @@ theorem soundE_step (f : Nat) (hE : SoundE f) (hL : SoundL f) (hS : SoundS f) : 
     obtain ⟨vs, σ1, hl, hk⟩ := bindM_ok hev
     cases hk
     obtain ⟨hvs, fvs⟩ := hL g env es ts σ σ' vs henv hts hl
-    refine ⟨?_, by simpa [Val.mkArray, fo] using fvs⟩
-    simp only [Val.mkArray, hasTy_arr]
-    exact allHasTy_of_hasTyL vs ts _ hvs fvs (members_sub_concatL ts (tyOfList_wf g es ts hts))
+    refine ⟨?_, plain_mkArray vs fvs⟩
+    simp only [Val.mkArray, asType, sub_arr]
+    exact concatL_mono (asTypeL vs) ts (wfL_asTypeL vs fvs) (tyOfList_wf g es ts hts) hvs
   | tuple es =>
     simp only [tyOf] at ht
     split at ht
@@ -736,7 +1024,7 @@ theorem soundE_step (f : Nat) (hE : SoundE f) (hL : SoundL f) (hS : SoundS f) : 
       obtain ⟨vs, σ1, hl, hk⟩ := bindM_ok hev
       cases hk
       obtain ⟨hvs, fvs⟩ := hL g env es ts σ σ' vs henv hts hl
-      exact ⟨by rw [hasTy_tup]; exact hvs, by simpa [fo] using fvs⟩
+      exact ⟨by simp only [asType, sub_tup]; exact hvs, by simpa [plain] using fvs⟩
   | «at» a i =>
     simp only [tyOf] at ht
     obtain ⟨ta, hta, h2⟩ := bind_ok ht
@@ -744,8 +1032,10 @@ theorem soundE_step (f : Nat) (hE : SoundE f) (hL : SoundL f) (hS : SoundS f) : 
     simp only [eval] at hev
     obtain ⟨x, σ1, ha, hk⟩ := bindM_ok hev
     obtain ⟨y, σ2, hi, hk2⟩ := bindM_ok hk
-    obtain ⟨hx, fx⟩ := hE g env a ta σ σ1 x henv hta ha
-    obtain ⟨hy, fy⟩ := hE g env i ti σ1 σ2 y henv hti hi
+    obtain ⟨tx, fx⟩ := hE g env a ta σ σ1 x henv hta ha
+    obtain ⟨ty, fy⟩ := hE g env i ti σ1 σ2 y henv hti hi
+    have hx := hasTy_of_tag fx tx
+    have hy := hasTy_of_tag fy ty
     split at h3
     · cases h3
     · rename_i hint
@@ -759,34 +1049,41 @@ theorem soundE_step (f : Nat) (hE : SoundE f) (hL : SoundL f) (hS : SoundS f) : 
         | error e => rw [hq] at hk2; cases hk2
       split at h3
       · rename_i e
+        have we := (okW_ok h3).2
         rw [(okW_ok h3).1]
         obtain ⟨t1, xs, rfl⟩ := arr_of_hasTy hx
-        exact ⟨index_yields_element t1 xs e k v hx hat, foL_mem (by simpa [fo] using fx) (atVal_mem t1 xs k v hat)⟩
+        simp only [asType, sub_arr] at tx
+        simp only [plain, Bool.and_eq_true] at fx
+        have hmem := atVal_mem t1 xs k v hat
+        have pv := plainL_mem fx.2 hmem
+        exact ⟨sub_trans v.asType t1 e (plain_wf_tag pv) fx.1.1 we ((allTagSub_iff xs t1).mp fx.1.2 v hmem) tx, pv⟩
       · cases h3
         cases x <;> simp [hasTy] at hx
         rename_i str
         have := index_string_yields_string str k v hat
         obtain ⟨w, rfl⟩ : ∃ w, v = .str w := by cases v <;> simp [hasTy] at this; exact ⟨_, rfl⟩
-        exact ⟨this, by simp [fo]⟩
+        exact ⟨tag_str _, by simp [plain]⟩
       all_goals cases h3
   | tacc a n =>
     simp only [tyOf] at ht
     obtain ⟨ta, hta, h2⟩ := bind_ok ht
     simp only [eval] at hev
     obtain ⟨x, σ1, ha, hk⟩ := bindM_ok hev
-    obtain ⟨hx, fx⟩ := hE g env a ta σ σ1 x henv hta ha
+    obtain ⟨tx, fx⟩ := hE g env a ta σ σ1 x henv hta ha
+    have hx := hasTy_of_tag fx tx
     split at h2
     · rename_i ts
       split at h2
-      · rename_i tx htx
+      · rename_i tx' htx
         rw [(okW_ok h2).1]
         obtain ⟨vs, rfl⟩ := tup_of_hasTy hx
-        rw [hasTy_tup] at hx
+        simp only [asType, sub_tup] at tx
         cases hw : vs[n]? with
         | some w =>
           simp only [hw] at hk
           cases hk
-          exact ⟨hasTyL_get vs ts n v tx hx hw htx, foL_mem (by simpa [fo] using fx) (List.mem_of_getElem? hw)⟩
+          exact ⟨matchesL_get (asTypeL vs) ts n v.asType tx' tx (asTypeL_get vs n v hw) htx,
+            plainL_mem (by simpa [plain] using fx) (List.mem_of_getElem? hw)⟩
         | none =>
           simp only [hw] at hk
           simp [wrong, throwS] at hk
@@ -798,7 +1095,6 @@ theorem soundE_step (f : Nat) (hE : SoundE f) (hL : SoundL f) (hS : SoundS f) : 
     split at h2
     · cases h2
     · rename_i hb
-      -- a condition of type `!` produces no value at all
       have hcond : tc = .bool := by
         simp only [Bool.not_eq_true', Bool.not_eq_false', Bool.or_eq_true] at hb
         have hb' : eqv tc .bool = true ∨ eqv tc .never = true := by
@@ -810,7 +1106,8 @@ theorem soundE_step (f : Nat) (hE : SoundE f) (hL : SoundL f) (hS : SoundS f) : 
           subst this
           simp only [eval] at hev
           obtain ⟨x, σ1, hc, _⟩ := bindM_ok hev
-          have := (hE g env c .never σ σ1 x henv htc hc).1
+          obtain ⟨tx, px⟩ := hE g env c .never σ σ1 x henv htc hc
+          have := hasTy_of_tag px tx
           rw [hasTy_never] at this
           cases this
       subst hcond
@@ -818,8 +1115,8 @@ theorem soundE_step (f : Nat) (hE : SoundE f) (hL : SoundL f) (hS : SoundS f) : 
       have wtt := tyOf_wf g t tt htt
       simp only [eval] at hev
       obtain ⟨x, σ1, hc, hk⟩ := bindM_ok hev
-      obtain ⟨hx, fx⟩ := hE g env c .bool σ σ1 x henv htc hc
-      obtain ⟨k, rfl⟩ := bool_of_hasTy hx
+      obtain ⟨tx, fx⟩ := hE g env c .bool σ σ1 x henv htc hc
+      obtain ⟨k, rfl⟩ := bool_of_hasTy (hasTy_of_tag fx tx)
       obtain ⟨k2, σ2, hk1, hk2⟩ := bindM_ok hk
       simp only [liftE, asBool] at hk1
       cases hk1
@@ -828,26 +1125,28 @@ theorem soundE_step (f : Nat) (hE : SoundE f) (hL : SoundL f) (hS : SoundS f) : 
         simp only [] at h3
         obtain ⟨te, hte, h4⟩ := bind_ok h3
         have wte := tyOf_wf g e te hte
+        have wC := (okW_ok h4).2
         rw [(okW_ok h4).1]
         obtain ⟨u1, u2⟩ := concat_upper tt te wtt wte
         cases k
         · simp at hk2
           obtain ⟨hv, fv⟩ := hE g env e te σ1 σ' v henv hte hk2
-          exact ⟨matches_sound_partial v te _ fv u2 hv, fv⟩
+          exact ⟨sub_trans _ te _ (plain_wf_tag fv) wte wC hv u2, fv⟩
         · simp at hk2
           obtain ⟨hv, fv⟩ := hE g env t tt σ1 σ' v henv htt hk2
-          exact ⟨matches_sound_partial v tt _ fv u1 hv, fv⟩
+          exact ⟨sub_trans _ tt _ (plain_wf_tag fv) wtt wC hv u1, fv⟩
       | none =>
         simp only [] at h3
+        have wC := (okW_ok h3).2
         rw [(okW_ok h3).1]
         obtain ⟨u1, u2⟩ := concat_upper tt .void wtt rfl
         cases k
         · simp at hk2
           cases hk2
-          exact ⟨matches_sound_partial .unit .void _ (by simp [fo]) u2 (by simp [hasTy]), by simp [fo]⟩
+          exact ⟨by simpa [asType] using u2, by simp [plain]⟩
         · simp at hk2
           obtain ⟨hv, fv⟩ := hE g env t tt σ1 σ' v henv htt hk2
-          exact ⟨matches_sound_partial v tt _ fv u1 hv, fv⟩
+          exact ⟨sub_trans _ tt _ (plain_wf_tag fv) wtt wC hv u1, fv⟩
   | block body =>
     simp only [tyOf] at ht
     obtain ⟨p, hp, h2⟩ := bind_ok ht
@@ -860,10 +1159,112 @@ theorem soundE_step (f : Nat) (hE : SoundE f) (hL : SoundL f) (hS : SoundS f) : 
     cases hk
     obtain ⟨hv, fv, _⟩ := hS g g' ([] :: env) env' body tb σ σ' w (envOk_push env g henv) hp hs
     exact ⟨hv, fv⟩
+  | ifSet x ty e body els =>
+    simp only [tyOf] at ht
+    split at ht
+    · cases ht
+    · rename_i hwty
+      have wty : wf ty = true := by simpa using hwty
+      obtain ⟨te, hte, h2⟩ := bind_ok ht
+      obtain ⟨tb, htb, h3⟩ := bind_ok h2
+      have wtb := tyOf_wf _ body tb htb
+      simp only [eval] at hev
+      obtain ⟨x0, σ1, he, hk⟩ := bindM_ok hev
+      obtain ⟨hx0, px0⟩ := hE g env e te σ σ1 x0 henv hte he
+      by_cases hm : Ty.sub x0.asType ty = true
+      · -- the run-time tag matches the declared type: that is all the body's environment needs
+        simp only [hm, if_true] at hk
+        obtain ⟨hv, pv⟩ := hE ((x, ty) :: g) ([(x, x0)] :: env) body tb σ1 σ' v (envOk_bind env g x x0 ty henv hm px0) htb hk
+        cases els with
+        | some el =>
+          simp only [] at h3
+          obtain ⟨tl, htl, h4⟩ := bind_ok h3
+          have wC := (okW_ok h4).2
+          rw [(okW_ok h4).1]
+          exact ⟨sub_trans _ tb _ (plain_wf_tag pv) wtb wC hv (concat_upper tb tl wtb (tyOf_wf g el tl htl)).1, pv⟩
+        | none =>
+          simp only [] at h3
+          have wC := (okW_ok h3).2
+          rw [(okW_ok h3).1]
+          exact ⟨sub_trans _ tb _ (plain_wf_tag pv) wtb wC hv (concat_upper tb .void wtb rfl).1, pv⟩
+      · simp only [hm, Bool.false_eq_true, if_false] at hk
+        cases els with
+        | some el =>
+          simp only [] at h3 hk
+          obtain ⟨tl, htl, h4⟩ := bind_ok h3
+          have wC := (okW_ok h4).2
+          have wtl := tyOf_wf g el tl htl
+          rw [(okW_ok h4).1]
+          obtain ⟨hv, pv⟩ := hE g env el tl σ1 σ' v henv htl hk
+          exact ⟨sub_trans _ tl _ (plain_wf_tag pv) wtl wC hv (concat_upper tb tl wtb wtl).2, pv⟩
+        | none =>
+          simp only [] at h3 hk
+          rw [(okW_ok h3).1]
+          cases hk
+          exact ⟨by simpa [asType] using (concat_upper tb .void wtb rfl).2, by simp [plain]⟩
+  | matchE e arms =>
+    simp only [tyOf] at ht
+    obtain ⟨te, hte, h2⟩ := bind_ok ht
+    obtain ⟨tys, htys, h3⟩ := bind_ok h2
+    split at h3
+    · cases h3
+    · have wC := (okW_ok h3).2
+      rw [(okW_ok h3).1]
+      simp only [eval] at hev
+      obtain ⟨v0, σ1, he, hk⟩ := bindM_ok hev
+      obtain ⟨_, pv0⟩ := hE g env e te σ σ1 v0 henv hte he
+      obtain ⟨t, htmem, hsub, pr⟩ := hA g env v0 arms tys σ1 σ' v henv pv0 htys hk
+      have wts := tyOfArms_wf g arms tys htys
+      exact ⟨sub_trans _ t _ (plain_wf_tag pr) (wfL_mem wts htmem) wC hsub (members_sub_concatL tys wts t htmem), pr⟩
   | _ => simp only [tyOf] at ht; cases ht
 
+theorem soundA_step (f : Nat) (hE : SoundE f) (hA : SoundA f) : SoundA (f + 1) := by
+  intro g env v arms tys σ σ' r henv pv ht hev
+  cases arms with
+  | nil => simp [evalArms, wrong, throwS] at hev
+  | cons arm rest =>
+    cases arm with
+    | other body =>
+      simp only [tyOfArms] at ht
+      obtain ⟨tb, htb, h2⟩ := bind_ok ht
+      obtain ⟨ts, hts, h3⟩ := bind_ok h2
+      cases h3
+      simp only [evalArms] at hev
+      obtain ⟨h1, p1⟩ := hE g env body tb σ σ' r henv htb hev
+      exact ⟨tb, by simp, h1, p1⟩
+    | ty x t body =>
+      simp only [tyOfArms] at ht
+      split at ht
+      · cases ht
+      · obtain ⟨tb, htb, h2⟩ := bind_ok ht
+        obtain ⟨ts, hts, h3⟩ := bind_ok h2
+        cases h3
+        simp only [evalArms] at hev
+        by_cases hm : Ty.sub v.asType t = true
+        · simp only [hm, if_true] at hev
+          obtain ⟨h1, p1⟩ := hE ((x, t) :: g) ([(x, v)] :: env) body tb σ σ' r (envOk_bind env g x v t henv hm pv) htb hev
+          exact ⟨tb, by simp, h1, p1⟩
+        · simp only [hm, Bool.false_eq_true, if_false] at hev
+          obtain ⟨t', hmem, h1, p1⟩ := hA g env v rest ts σ σ' r henv pv hts hev
+          exact ⟨t', by simp [hmem], h1, p1⟩
+    | val cands body =>
+      simp only [tyOfArms] at ht
+      obtain ⟨_, _, h1⟩ := bind_ok ht
+      obtain ⟨tb, htb, h2⟩ := bind_ok h1
+      obtain ⟨ts, hts, h3⟩ := bind_ok h2
+      cases h3
+      simp only [evalArms] at hev
+      obtain ⟨hit, σ1, _, hk⟩ := bindM_ok hev
+      cases hit
+      · simp only [Bool.false_eq_true, if_false] at hk
+        obtain ⟨t', hmem, h1', p1⟩ := hA g env v rest ts σ1 σ' r henv pv hts hk
+        exact ⟨t', by simp [hmem], h1', p1⟩
+      · simp only [if_true] at hk
+        obtain ⟨h1', p1⟩ := hE g env body tb σ1 σ' r henv htb hk
+        exact ⟨tb, by simp, h1', p1⟩
+
 def SoundV (f : Nat) : Prop := ∀ (g : TEnv) (env : Env) (e : Expr) (T : Ty) (σ σ' : St) (v : Val),
-  EnvOk env g → tyOf g e = .ok T → evalStmtValue f env e σ = (.ok v, σ') → hasTy v T = true ∧ fo v = true
+  EnvOk env g → tyOf g e = .ok T → evalStmtValue f env e σ = (.ok v, σ') → sub v.asType T = true ∧ plain v = true
 
 theorem soundV_step (f : Nat) (hE : SoundE f) : SoundV (f + 1) := by
   intro g env e T σ σ' v henv ht hev
@@ -876,7 +1277,7 @@ theorem soundL_step (f : Nat) (hE : SoundE f) (hL : SoundL f) : SoundL (f + 1) :
   | nil =>
     simp only [tyOfList] at ht; cases ht
     simp only [evalList] at hev; cases hev
-    simp [hasTyL, foL]
+    simp [asTypeL, matchesL, plainL]
   | cons e es =>
     simp only [tyOfList] at ht
     obtain ⟨t, hte, h2⟩ := bind_ok ht
@@ -888,7 +1289,7 @@ theorem soundL_step (f : Nat) (hE : SoundE f) (hL : SoundL f) : SoundL (f + 1) :
     cases hk2
     obtain ⟨h1, f1⟩ := hE g env e t σ σ1 w henv hte he
     obtain ⟨h2', f2⟩ := hL g env es ts σ1 σ' ws henv hts hes
-    simp [hasTyL, foL, h1, f1, h2', f2]
+    simp [asTypeL, matchesL, plainL, h1, f1, h2', f2]
 
 theorem soundSt_step (f : Nat) (hE : SoundE f) (hV : SoundV f) : SoundSt (f + 1) := by
   intro g g' env env' s T σ σ' v henv ht hev
@@ -920,7 +1321,7 @@ theorem soundS_step (f : Nat) (hSt : SoundSt f) (hS : SoundS f) : SoundS (f + 1)
   | [] =>
     simp only [tyOfSeq] at ht; cases ht
     simp only [evalSeq] at hev; cases hev
-    exact ⟨by simp [hasTy], by simp [fo], henv⟩
+    exact ⟨tag_unit, by simp [plain], henv⟩
   | [s] =>
     simp only [tyOfSeq] at ht
     simp only [evalSeq] at hev
@@ -938,27 +1339,30 @@ theorem soundS_step (f : Nat) (hSt : SoundSt f) (hS : SoundS f) : SoundS (f + 1)
     exact hS g1 g' env1 env' (s2 :: rest) T σ1 σ' v henv1 h2 hk
 
 /-- all five statements, for every amount of fuel -/
-theorem sound_all : ∀ f : Nat, SoundE f ∧ SoundL f ∧ SoundS f ∧ SoundSt f ∧ SoundV f := by
+theorem sound_all : ∀ f : Nat, SoundE f ∧ SoundL f ∧ SoundS f ∧ SoundSt f ∧ SoundV f ∧ SoundA f := by
   intro f
   induction f with
   | zero =>
-    refine ⟨?_, ?_, ?_, ?_, ?_⟩
+    refine ⟨?_, ?_, ?_, ?_, ?_, ?_⟩
     · intro g env e T σ σ' v _ _ hev; simp [eval, throwS] at hev
     · intro g env es Ts σ σ' vs _ _ hev; simp [evalList, throwS] at hev
     · intro g g' env env' body T σ σ' v _ _ hev; simp [evalSeq, throwS] at hev
     · intro g g' env env' s T σ σ' v _ _ hev; simp [evalStmt, throwS] at hev
     · intro g env e T σ σ' v _ _ hev; simp [evalStmtValue, throwS] at hev
+    · intro g env v arms tys σ σ' r _ _ _ hev; simp [evalArms, throwS] at hev
   | succ f ih =>
-    obtain ⟨hE, hL, hS, hSt, hV⟩ := ih
-    exact ⟨soundE_step f hE hL hS, soundL_step f hE hL, soundS_step f hSt hS, soundSt_step f hE hV, soundV_step f hE⟩
+    obtain ⟨hE, hL, hS, hSt, hV, hA⟩ := ih
+    exact ⟨soundE_step f hE hL hS hA, soundL_step f hE hL, soundS_step f hSt hS, soundSt_step f hE hV, soundV_step f hE,
+      soundA_step f hE hA⟩
 
 /-- **type soundness, evaluator level, first-order fragment**: if the checker model assigns `T` to an expression in an
     environment whose variables hold first-order values of their static types, every value the reference evaluator
     produces for it (with any fuel, from any store) inhabits `T` - by contents - and is first-order -/
 theorem eval_sound (f : Nat) (g : TEnv) (env : Env) (e : Expr) (T : Ty) (σ σ' : St) (v : Val)
     (henv : EnvOk env g) (ht : tyOf g e = .ok T) (hev : eval f env e σ = (.ok v, σ')) :
-    hasTy v T = true ∧ fo v = true :=
-  (sound_all f).1 g env e T σ σ' v henv ht hev
+    hasTy v T = true ∧ sub v.asType T = true ∧ plain v = true :=
+  have h := (sound_all f).1 g env e T σ σ' v henv ht hev
+  ⟨hasTy_of_tag h.2 h.1, h.1, h.2⟩
 
 /-- the same for whole programs (statement lists with `:=` declarations), from the empty environment -/
 theorem program_sound (f : Nat) (prog : List Expr) (T : Ty) (σ σ' : St) (v : Val) (env' : Env)
@@ -969,7 +1373,8 @@ theorem program_sound (f : Nat) (prog : List Expr) (T : Ty) (σ σ' : St) (v : V
   obtain ⟨t, g'⟩ := p
   cases h2
   have h0 : EnvOk [[]] [] := by intro x t hx; simp [TEnv.lookup] at hx
-  exact ((sound_all f).2.2.1 [] g' [[]] env' prog T σ σ' v h0 hp hev).1
+  have h := (sound_all f).2.2.1 [] g' [[]] env' prog T σ σ' v h0 hp hev
+  exact hasTy_of_tag h.2.1 h.1
 
 /-- non-vacuity: a program with a declaration, an index, a comparison and branches of different types is typed
     `int|string` by the model and evaluates (fuel 10) to a value -/
